@@ -146,6 +146,36 @@ func cmdCheck(args []string) int {
 		}
 		reports = append(reports, eng.VerifyFunc(spec, mode, kf))
 	}
+	// contracts serving other properties may call functions whose contract serves this one: their call-site
+	// preconditions are obligations of this property
+	var otherKeys []string
+	for k, s := range eng.specs.Funcs {
+		if !hasProp(s.Props, pid) && !s.Trusted && !s.NoVerify && (*only == "" || strings.Contains(k, *only)) {
+			otherKeys = append(otherKeys, k)
+		}
+	}
+	sort.Strings(otherKeys)
+	for _, k := range otherKeys {
+		spec := eng.specs.Funcs[k]
+		mode := spec.Mode
+		if mode == "" {
+			mode = "SEQ"
+		}
+		rep := eng.VerifyFunc(spec, mode, kf)
+		if rep.Err != "" {
+			continue // reported by that contract's own properties
+		}
+		var keep []*Obligation
+		for _, o := range rep.Obs {
+			if o.Kind == "call" && hasProp(o.OwnerProps, pid) {
+				keep = append(keep, o)
+			}
+		}
+		if len(keep) > 0 {
+			rep.Obs = keep
+			reports = append(reports, rep)
+		}
+	}
 	for _, lm := range eng.specs.Lemmas {
 		if hasProp(lm.Props, pid) && (*only == "" || strings.Contains(lm.Name, *only)) {
 			reports = append(reports, eng.VerifyLemma(lm))
@@ -155,11 +185,21 @@ func cmdCheck(args []string) int {
 	genS := time.Since(t0).Seconds() - loadS
 
 	var obs []*Obligation
+	deferred := map[string]bool{}
 	for _, r := range reports {
+		var keep []*Obligation
 		for _, o := range r.Obs {
+			if o.Kind == "call" && len(o.OwnerProps) > 0 && !hasProp(o.OwnerProps, pid) {
+				// a precondition of a callee whose contract serves other properties: it is an obligation of those
+				// properties' checks (the caller is verified there too); here it is only an assumption
+				deferred[fmt.Sprintf("%s (checked under %s)", o.Name, strings.Join(o.OwnerProps, ","))] = true
+				continue
+			}
 			o.Props = []string{pid}
+			keep = append(keep, o)
 			obs = append(obs, o)
 		}
+		r.Obs = keep
 	}
 	results := SolveAll(obs, timeout, confirm, runtime.NumCPU())
 	byOb := map[*Obligation]*Result{}
@@ -352,6 +392,7 @@ func cmdCheck(args []string) int {
 			"unmodelled_calls":     unm,
 			"undecided":            undecided,
 			"known_findings":       knownLines,
+			"deferred_preconditions": keys(deferred),
 			"contract_files":       relFiles(eng),
 			"explanation":          explanationFor(pid),
 		},
